@@ -88,7 +88,7 @@ class C01(engine.Property):
     assumptions = [
         "single-threaded use (the library documents no thread safety)",
         "observation through public accessors only (links, vertices, universes)",
-        "neighbor caching off: the property does not mention it",
+        "the property does not mention neighbor caching: the flag is flipped at seeded points of a share of the histories and the invariant must hold either way",
         "with value-equal vertex classes only what holds under both the identity and the == reading of 'listed' is demanded",
         "clean batches are evidence, not proof: histories are sampled, not enumerated",
     ]
@@ -153,6 +153,9 @@ class C01(engine.Property):
             return None
         if cfg.get("restarts") and rng.random() < 0.04:
             return common.restart_op(rng)
+        fl = common.flag_op(rng, cfg, st)
+        if fl is not None:
+            return fl
         for _ in range(20):
             kind = gen.weighted_choice(rng, cfg["weights"])
             op = st.gen.draw(rng, st.view, st.namer, kind)
